@@ -119,6 +119,9 @@ def Builder.prefixE (b : Builder) (pfx : Str) (uri : StrSpan) (nameSpan : Span) 
   match parseContentE true uri.start uri.text with
   | .error e => .err (ParseErr.ofContent e) b.env
   | .ok u =>
+    if reservedDecl pfx u then
+      .err (.invalidNamespaceDeclaration (declDisplayName pfx) nameSpan) b.env
+    else
     let r1 := b.env.internPrefix pfx
     let r2 := r1.1.internNamespace u
     match b.eb with
